@@ -4,7 +4,7 @@ REFLECT = "Go reflect / runtime semantics as specified in the model (DESIGN.md 3
 
 PROPS = {
     "C03": {
-        "gens": ["Prec"],
+        "gens": ["Prec", "ParserGen"],
         "lean": "Anko.Props.C03",
         "streams": [{"name": "parse", "n_quick": 3000, "n_thorough": 60000}],
         "trusted": ["goyacc and its LALR driver (the compiled parser is compared with the table-driven spelling, not modelled)",
@@ -68,7 +68,7 @@ PROPS = {
                     "element conversion on send is checked differentially (templates) only"],
     },
     "C15": {
-        "gens": [],
+        "gens": ["ParserGen"],
         "lean": "Anko.Props.C15",
         "streams": [{"name": "lex", "n_quick": 2500, "n_thorough": 50000}],
         "trusted": ["goyacc and its LALR driver (the generated parser is exercised, not modelled)",
